@@ -345,6 +345,10 @@ def main():
             run.count(k, n_)
         for b in v["bad"]:
             run.violation(b["what"][:80], b, mech={"what": b["what"]})
+    # the initial state of systems with more than 4096 cells, every level in its own units (workload shared with C13)
+    from vf.sandbox import run_extra as _rx0
+    from vf.common import seed as _sd1, tier as _tr1
+    _rx0(run, "vf.checks.c13:run_large_default", [{"seed": _sd1(), "idx": 500 + _i} for _i in range(40 if _tr1() == "thorough" else 5)], cpu_budget=300)
     # objects built with default arguments do not share them (vf/history.py: h_default_isolation)
     from vf.sandbox import run_extra as _rx
     from vf.common import seed as _sd0, tier as _tr0
